@@ -63,3 +63,36 @@ Proof.
   exists c19_world, c19_opts, [1], [2], 2. split; vm_compute; discriminate.
 Qed.
 Print Assumptions C19_root_context_refuted.
+
+(* F-C19e: a.ts imports x.wasm at source phase (an asset load) and imports b.ts dynamically; b.ts imports
+   x.wasm as a module, which upgrades the asset-only entry to a WebAssembly module.  b.ts is then edited to
+   drop the import and reloaded: the entry of x.wasm stays a module, while a from-scratch build of the new
+   sources holds the asset-only entry. *)
+Definition c19e_mod (s : spec) (ds : list (dep * dflags)) : spec * wresp :=
+  (s, WModule s {| wm_hash_raw := 0; wm_hash_text := 0; wm_media := MTypeScript; wm_parse_ok := true; wm_kind := MkJs;
+                   wm_deps := ds; wm_tdep := None |}).
+Definition c19e_wasm : spec * wresp :=
+  (3, WModule 3 {| wm_hash_raw := 0; wm_hash_text := 0; wm_media := MWasm; wm_parse_ok := true; wm_kind := MkWasm;
+                   wm_deps := []; wm_tdep := None |}).
+Definition c19e_sp_dep : dep * dflags :=
+  ({| d_text := 10; d_filelike := false; d_code := ROk 3 5; d_type := RNone; d_dyn := false; d_deno_types := false; d_attr := 9 |},
+   {| dfl_asset := true; dfl_sp := Some 5 |}).
+Definition c19e_dyn_dep : dep * dflags :=
+  ({| d_text := 11; d_filelike := false; d_code := ROk 2 6; d_type := RNone; d_dyn := true; d_deno_types := false; d_attr := 0 |}, plain_dep).
+Definition c19e_reg_dep : dep * dflags :=
+  ({| d_text := 12; d_filelike := false; d_code := ROk 3 7; d_type := RNone; d_dyn := false; d_deno_types := false; d_attr := 0 |}, plain_dep).
+Definition c19e_world (b_imports_wasm : bool) : world :=
+  {| w_resp := [c19e_mod 1 [c19e_sp_dep; c19e_dyn_dep]; c19e_mod 2 (if b_imports_wasm then [c19e_reg_dep] else []); c19e_wasm];
+     w_resp_reload := []; w_http := []; w_lock := None; w_class := []; w_file := [1; 2; 3]; w_max_redirects := 10;
+     w_wasm_ext := [3]; w_wasm_nodts := [3]; w_npm := None |}.
+Theorem C19_stale_upgrade_refuted :
+  exists W W' o roots edited s,
+    match build W o (empty_bgraph (bo_kind o)) roots [] with
+    | Some g => match reload W' o g edited, build W' o (empty_bgraph (bo_kind o)) roots [] with
+                | Some g1, Some g2 => lookup s (bg_slots g1) <> lookup s (bg_slots g2)
+                | _, _ => False end
+    | None => False end.
+Proof.
+  exists (c19e_world true), (c19e_world false), c19_opts, [1], [2], 3. vm_compute. discriminate.
+Qed.
+Print Assumptions C19_stale_upgrade_refuted.
